@@ -399,6 +399,8 @@ def compare(c, cs, out):
         c.hit("second transcribe() on the same object (cached functions, dynamic parameters changed)")
     if inst.get("dyn"):
         c.hit("dynamic parameters")
+    if inst.get("equidistant"):
+        c.hit("equidistant flag set" + (" + own grid" if inst.get("own_times") else ""))
     if inst.get("npv") or inst.get("nev") or inst.get("nxc"):
         c.hit("path/extra variables or extra inputs present")
     if any(len(set(col)) < len(col) for col in zip(*inst["pvals"])) and inst["E"] > 1:
@@ -806,6 +808,7 @@ def run(c):
             inst["nom"]["u0"] = rng.choice(S.NOMS)
             inst["history"] = [{} for _ in range(inst["E"])]
         if S.add_own_times(rng, inst):
+            inst["equidistant"] = rng.random() < 0.6
             own.append(inst)
     # one member, every parameter dynamic, transcribed twice with changed values: a dynamic parameter
     # must never be frozen in the cached residual function, also when the ensemble has one member
